@@ -109,7 +109,7 @@ func (in *c07HistInst) check() *explore.Fail {
 		if pn < s.T {
 			return explore.Failf("duplicate-missed/history/below-threshold", "packet %d is below DeleteBelow(%d) but IsPotentiallyDuplicate says false", pn, s.T)
 		}
-		return explore.Failf("duplicate-missed/history/tracked", "packet %d lies inside the tracked history %s (threshold %d) but IsPotentiallyDuplicate says false; ranges %v", pn, s.trk, s.T, rs)
+		return explore.Failf("duplicate-missed/history/tracked", "packet %d lies inside the tracked history %s (threshold %d) but IsPotentiallyDuplicate says false; ranges %s", pn, s.trk, s.T, c07Fmt(rs))
 	}
 	return nil
 }
